@@ -37,15 +37,11 @@ async fn read_one_async(path: &Path) -> anyhow::Result<Item> {
     };
     read_one_from_slice(&input)
         .map_err(|err| {
+            // never quote the file: for a mangled key file (e.g. folded onto one line) the "marker"
+            // or "line" the parser reports is the key material itself
             let msg = match err {
-                Error::MissingSectionEnd { end_marker } => format!(
-                    "section end {:?} missing",
-                    String::from_utf8_lossy(&end_marker)
-                ),
-                Error::IllegalSectionStart { line } => format!(
-                    "illegal section start: {:?}",
-                    String::from_utf8_lossy(&line)
-                ),
+                Error::MissingSectionEnd { .. } => "section end marker missing".to_string(),
+                Error::IllegalSectionStart { .. } => "illegal section start".to_string(),
                 Error::Base64Decode(msg) => msg,
             };
             anyhow::anyhow!("failed to decode PEM file contents: {msg}")
